@@ -525,11 +525,13 @@ def _frac(x):
     concrete float computation around a small-denominator rational is discarded; anything else is taken exactly."""
     x = float(x)
     f = fractions.Fraction(x)
-    g = f.limit_denominator(10 ** 12)
-    if float(g) == x:
-        return g
+    # small denominators first: a double that is one ulp off the double of p/q (q small) must still stand for p/q, not for
+    # some other rational with a 12-digit denominator that happens to round to it
     g = f.limit_denominator(10 ** 6)
     if abs(float(g) - x) <= 1e-12 * max(1.0, abs(x)):
+        return g
+    g = f.limit_denominator(10 ** 12)
+    if float(g) == x:
         return g
     return f
 
